@@ -65,9 +65,9 @@ func init() {
 			"stored values are non-empty (the account store treats an empty value as a delete)"},
 		TimeoutSec: func(t string) int {
 			if t == ev.Thorough {
-				return 3000
+				return 7200
 			}
-			return 400
+			return 600
 		},
 		Run: run,
 	})
